@@ -6,6 +6,7 @@ import c02
 
 CONFIGS = ['prod', 'testutils']
 EXPLANATION = (
+    'MSEM: every Storage method of the in-memory backend interpreted per (keyspace, key) abstract pre-state against the reference key-value model. '
     'Decided clauses: B1 SQLite statement/parameter agreement — every StorageHandle call binds a tuple whose arity equals the number of `?` '
     'in the statement it names, and all call sites of one statement bind the same tuple type; B2 the in-memory backend creates the keyspace '
     'on every write (an Entry taken from the metadata map always ends in or_insert*/or_default); B3 reads are pure — no persistent write '
